@@ -447,7 +447,20 @@ def _compiler_tables():
             resets = True
     if not seen_loop:
         raise TranslatorError("compile: gate loop not found")
-    return dict(rules=rules, rot_area=rot_area, sel=sel, sw_key=sw_key, sw_idx=sw_idx, sw_label=sw_label,
+    old = _dump(ast.parse("instruction_list += instruction").body[0])
+    new = _dump(ast.parse("instruction_list += [ins for ins in instruction if ins.duration != 0]").body[0])
+    drops = None
+    for n in ast.walk(comp):
+        if isinstance(n, ast.AugAssign) and isinstance(n.target, ast.Name) and n.target.id == "instruction_list":
+            if _dump(n) == old:
+                drops = False
+            elif _dump(n) == new:
+                drops = True
+            else:
+                raise TranslatorError("compile: `instruction_list += …` has neither of the two modelled shapes")
+    if drops is None:
+        raise TranslatorError("compile: `instruction_list += …` not found")
+    return dict(drops=drops, rules=rules, rot_area=rot_area, sel=sel, sw_key=sw_key, sw_idx=sw_idx, sw_label=sw_label,
                 sw_prefix=p1, pulse_coeff=pulse_coeff, pulse_dur=pulse_dur, resets=resets, exch_area=exch_area)
 
 
@@ -566,7 +579,27 @@ def _model_tables():
                 mk = True
     if not mk:
         raise TranslatorError("SpinChain.load_circuit: construction of the default SpinChainCompiler not recognised")
-    return dict(defaults=defaults, ncl=ncl, ncc=ncc, controls=controls, hands=hands)
+    # ModelProcessor.load_circuit: what happens when compile returns (None, None)
+    relm = "device/modelprocessor.py"
+    treem, srcm = _parse(relm)
+    mp = _cls(treem, "ModelProcessor", relm)
+    lcm = _body(_meth(mp, "load_circuit"))
+    tail_old = ["self.set_coeffs(coeffs)", "self.set_tlist(tlist)", "return tlist, coeffs"]
+    guard = """
+if coeffs is None:
+    self.clear_pulses()
+    return tlist, coeffs
+"""
+    if len(lcm) >= 3 and [_dump(x) for x in lcm[-3:]] == [_dump(ast.parse(t).body[0]) for t in tail_old]:
+        if len(lcm) >= 4 and _dump(lcm[-4]) == _dump(ast.parse(guard).body[0]):
+            empty_ok = True
+        else:
+            empty_ok = False
+            if any(isinstance(x, ast.If) and "coeffs is None" in ast.unparse(x.test) for x in lcm):
+                raise TranslatorError("ModelProcessor.load_circuit: unrecognised handling of `coeffs is None`")
+    else:
+        raise TranslatorError("ModelProcessor.load_circuit: the statements saving the compiled pulses are not recognised")
+    return dict(defaults=defaults, ncl=ncl, ncc=ncc, controls=controls, hands=hands, empty_ok=empty_ok)
 
 
 HEADER = '''/-! GENERATED by py/translate/spinchain.py from /repo/src/qutip_qip/compiler/{spinchaincompiler,gatecompiler}.py and
@@ -590,6 +623,8 @@ class Arith (α : Type) where
   sign : α → α
   /-- the rational constant `n / d` -/
   ofFrac : Int → Nat → α
+  /-- `x == 0` (`ins.duration != 0` of `compile`) -/
+  isZero : α → Bool
 
 def imin (a b : Int) : Int := if a ≤ b then a else b
 def imax (a b : Int) : Int := if a ≤ b then b else a
@@ -639,6 +674,11 @@ def render():
     L.append(f"def swapLabelIdx (N q1 q2 : Int) : Int := {c['sw_label']}\n")
     L.append("/-- `GateCompiler.compile` sets `self.global_phase = 0.0` before the gate loop -/")
     L.append(f"def compileResetsPhase : Bool := {'true' if c['resets'] else 'false'}\n")
+    L.append("/-- `GateCompiler.compile` keeps only instructions with `ins.duration != 0` (fixes/C06-2.patch) -/")
+    L.append(f"def dropsZeroDuration : Bool := {'true' if c['drops'] else 'false'}\n")
+    L.append("/-- `ModelProcessor.load_circuit` accepts `compile(...) = (None, None)`: clears the pulses instead of\n"
+             "`set_coeffs(None)` raising ValueError (fixes/C06-1.patch) -/")
+    L.append(f"def loadsEmpty : Bool := {'true' if m['empty_ok'] else 'false'}\n")
     L.append("/-- `SpinChain.load_circuit`: `self.global_phase = compiler.global_phase` -/")
     L.append(f"def handsBackPhase : Bool := {'true' if m['hands'] else 'false'}\n")
     L.append("/-! ## `SpinChainModel` -/\n")
@@ -662,7 +702,7 @@ def render():
             L.append(f"def ctl{nm}_qubits (N n : Int) : Int × Int := ({ctl['qubits'][0]}, {ctl['qubits'][1]})\n")
     L.append("end QipVerif.Gen.SC\n")
     info = dict(gates=[g for g, _ in c["rules"]], rules=dict(c["rules"]), exch_area=c["exch_area"],
-                resets=c["resets"], hands=m["hands"], defaults=m["defaults"])
+                resets=c["resets"], hands=m["hands"], defaults=m["defaults"], drops=c["drops"], empty_ok=m["empty_ok"])
     return "\n".join(L), info
 
 
